@@ -17,10 +17,15 @@ enum Case {
     Byte { cid: Cid, b: u8 },
     /// every per-symbol law for the i-th entry of items()
     Sym { cid: Cid, i: usize },
+    /// symbol-level conversions between the DNA alphabets for one byte value / one base
+    Conv { b: u8 },
 }
 
 fn gen(_t: Tier, _seed: u64, emit: &mut dyn FnMut(Case)) {
     emit(Case::OracleSelfTest);
+    for b in 0..=255u8 {
+        emit(Case::Conv { b });
+    }
     for cid in Cid::ALL {
         emit(Case::Alphabet { cid });
         for b in 0..=255u8 {
@@ -42,10 +47,39 @@ fn run(c: &Case, out: &mut Out) {
             }
             out.checks += 1;
         }
+        Case::Conv { b } => conv_case(*b, out),
         Case::Alphabet { cid } => dispatch!(*cid, alphabet_case(out)),
         Case::Byte { cid, b } => dispatch!(*cid, byte_case(*b, out)),
         Case::Sym { cid, i } => dispatch!(*cid, sym_case(*i, out)),
     }
+}
+
+/// text::Dna -> dna::Dna succeeds exactly for A, C, G, T; dna::Dna -> text / IUPAC keeps the letter
+fn conv_case(b: u8, out: &mut Out) {
+    out.stage = "dna::Dna::try_from(text::Dna)";
+    let t = TDna::unsafe_from_bits(b);
+    let r = out.catch(|| Dna::try_from(t));
+    let want = matches!(b, b'A' | b'C' | b'G' | b'T');
+    let ok = match &r {
+        Ok(Ok(d)) => want && d.to_char() as u8 == b,
+        Ok(Err(_)) => !want,
+        Err(_) => false,
+    };
+    out.check(ok, || {
+        let class = match &r {
+            Ok(Ok(_)) if !want => "accepts-byte-outside-ACGT",
+            Ok(Ok(_)) => "wrong-base",
+            Ok(Err(_)) => "rejects-ACGT",
+            Err(_) => "panics",
+        };
+        (format!("text::Dna->dna::Dna/{class}"), format!("Dna::try_from(text symbol {b:#04x} {:?}) = {:?}", b as char, r))
+    });
+    if let Some(d) = Dna::try_from_ascii(b) {
+        out.stage = "text::Dna::from(dna::Dna) / Iupac::from(dna::Dna)";
+        let r = out.catch(|| (TDna::from(d).to_char(), Iupac::from(d).to_char(), TDna::from(d).to_bits()));
+        out.check(r == Ok((b as char, b as char, b)), || ("dna::Dna->text/iupac/letter-not-preserved".into(), format!("conversions of {:?}: {:?}", b as char, r)));
+    }
+    out.observe(&(255u8, b, ok));
 }
 
 fn nm<A: Sx>() -> &'static str {
